@@ -245,6 +245,17 @@ Proof.
   intro H. unfold Gen.btreeset_ssz_bytes_len, len_of. rewrite gen_sequence_ssz_bytes_len_eq by exact H. reflexivity.
 Qed.
 
+(** ** the other entry points: the default [as_ssz_bytes], its three overrides, [ssz_encode] *)
+Theorem gen_default_as_ssz_bytes t x : Gen.encode_default_as_ssz_bytes (app_of t) x = Ok (enc t x).
+Proof. reflexivity. Qed.
+Theorem gen_ssz_encode_eq t x : Gen.ssz_encode (Gen.encode_default_as_ssz_bytes (app_of t)) x = Ok (enc t x).
+Proof. reflexivity. Qed.
+Theorem gen_as_ssz_bytes_overrides bs :
+  (forall n, Gen.fixedbytes_as_ssz_bytes n bs = Gen.encode_default_as_ssz_bytes (Gen.fixedbytes_ssz_append n) bs) /\
+  Gen.bloom_as_ssz_bytes bs = Gen.encode_default_as_ssz_bytes Gen.bloom_ssz_append bs /\
+  Gen.alloy_bytes_as_ssz_bytes bs = Gen.encode_default_as_ssz_bytes Gen.alloy_bytes_ssz_append bs.
+Proof. repeat split. Qed.
+
 Print Assumptions gen_uint_ssz_append.
 Print Assumptions gen_option_ssz_append.
 Print Assumptions gen_option_ssz_bytes_len.
@@ -256,3 +267,6 @@ Print Assumptions gen_smallvec_ssz_append_eq.
 Print Assumptions gen_smallvec_ssz_bytes_len_eq.
 Print Assumptions gen_btreeset_ssz_append_eq.
 Print Assumptions gen_btreeset_ssz_bytes_len_eq.
+Print Assumptions gen_default_as_ssz_bytes.
+Print Assumptions gen_ssz_encode_eq.
+Print Assumptions gen_as_ssz_bytes_overrides.
